@@ -155,6 +155,30 @@ def other_inputs(k):
     return pu.image_dataset(a, disp=(-2, 1)), pu.image_dataset(b, disp=None)
 
 
+def neighbour_cfg(v):
+    """the same configuration with every finite real-valued parameter moved by 5 % (sigma_space 2.0 -> 2.1 keeps the
+    7-pixel window, ...)"""
+    if isinstance(v, dict):
+        return {k: neighbour_cfg(x) for k, x in v.items()}
+    if isinstance(v, float) and v == v and abs(v) != float("inf"):
+        return v * 1.05
+    return v
+
+
+def run_neighbour(case):
+    """another machine object runs the neighbour-parameter pipeline on copies of the case's inputs; anything memoised
+    per class / per module under a key coarser than the parameters would afterwards serve the wrong values"""
+    import pandora
+    from pandora.state_machine import PandoraMachine
+
+    L, R = make_inputs(case)
+    try:
+        pandora.run(PandoraMachine(), L, R, neighbour_cfg(copy.deepcopy(case["cfg"])))
+        return "ran"
+    except Exception as exc:  # pylint: disable=broad-except
+        return "refused: " + type(exc).__name__
+
+
 def run_case(case, scenarios, full=False):
     import pandora
     from pandora.state_machine import PandoraMachine
@@ -230,6 +254,9 @@ def run_case(case, scenarios, full=False):
             except Exception as exc:  # pylint: disable=broad-except
                 res["errors"].append(f"other pipeline {k}: " + type(exc).__name__ + ": " + str(exc)[:160])
             one_run(f"after_other_{k}", m)
+        # another machine object runs the SAME pipeline with every real-valued parameter moved by 5 %
+        res.setdefault("notes", []).append("neighbour-parameter pipeline " + run_neighbour(case))
+        one_run("after_other_neighbour_parameters", m)
         # a pipeline the other machine REJECTS (leaves its transitions / the shared dicts half-way)
         try:
             bad = PandoraMachine()
@@ -399,6 +426,10 @@ def main():
         if n is not None:
             numba.set_num_threads(n)
         for case in spec["cases"]:
+            if spec.get("neighbour_first"):
+                # in THIS process the neighbour-parameter pipeline runs before the case is ever run: its `fresh` products
+                # are compared with those of the processes that ran the case first
+                run_neighbour(case)
             r = run_case(case, spec.get("scenarios", False) and case.get("scenarios", True), spec.get("full", False))
             r["threads_now"] = int(numba.get_num_threads())
             if spec.get("frames") and spec.get("scenarios") and case.get("scenarios", True):
